@@ -97,6 +97,9 @@ func writeReplay(rf ReplayFile) string {
 	b, _ := json.MarshalIndent(rf, "", " ")
 	h := sha1.Sum(b)
 	dir := filepath.Join(verifDir, "replays")
+	if d := os.Getenv("VERIF_REPLAY_DIR"); d != "" {
+		dir = d
+	}
 	os.MkdirAll(dir, 0o755)
 	p := filepath.Join(dir, fmt.Sprintf("%s-%s-%x.json", rf.Property, rf.Harness, h[:4]))
 	os.WriteFile(p, b, 0o644)
@@ -590,8 +593,12 @@ func writeEvidence(id, tier string, seed int64, pp *PropPlan, results []*Result,
 		ev["assumptions"] = pp.Assume
 	}
 	b, _ := json.MarshalIndent(ev, "", " ")
-	os.MkdirAll(filepath.Join(verifDir, "evidence"), 0o755)
-	os.WriteFile(filepath.Join(verifDir, "evidence", id+".json"), append(b, '\n'), 0o644)
+	edir := filepath.Join(verifDir, "evidence")
+	if d := os.Getenv("VERIF_EVIDENCE_DIR"); d != "" {
+		edir = d // used when checks are run against a scratch copy of the repository (seed evaluation)
+	}
+	os.MkdirAll(edir, 0o755)
+	os.WriteFile(filepath.Join(edir, id+".json"), append(b, '\n'), 0o644)
 }
 
 func round3(f float64) float64 { return float64(int64(f*1000+0.5)) / 1000 }
